@@ -168,7 +168,7 @@ def ob_df(W, inplace, index=None):
     before = df.copy(deep=True)
     if W.sym:
         W.assume(fs > 0)
-        f = clone(D.df_timeshift, np=NumpyShim(), timeshift=rec)
+        f = clone_module(D, dict(np=NumpyShim(), timeshift=rec))["df_timeshift"]
     else:
         if not fs > 0:
             return
